@@ -125,6 +125,21 @@ def gen(seed, tier):
             body.append(sentinel())
             cases.append(H("C01-m%d" % n, o, [seg(0, body)]))
             n += 1
+    # (g) rendering rows of any age never panics: aircraft silent for seconds .. years (the expiry limit permitting), every
+    #     column group; the renderer is reached through the guarded hook (kind D)
+    import props.C14 as c14
+    for k, ages in enumerate([[159000, 1000, 500], [160000, 90000], [3600000, 86400000], [10 ** 9, 10 ** 11], [2 ** 31 * 1000, 2 ** 33 * 1000]]):
+        pool = r.sample(ICAOS, 2)
+        lines = []
+        for icao in pool:
+            lines += c14.full_aircraft(g, icao, 0.9)
+        segs = [seg(0, lines)]
+        t = 0
+        for a in ages:
+            t += a
+            segs.append(seg(t, [g.any_frame(pool[0])] if r.random() < 0.5 else []))
+        cases.append(D("C01-g%d" % n, {"i": "aAews", "d": 9223372036854775807, "R": 1}, segs))
+        n += 1
     # (d) random histories with time steps (update paths, sweeps)
     for i in range(60 if tier == "quick" else 600):
         cases.append(g.random_history("C01-r%d" % i))
